@@ -27,8 +27,11 @@ PROPERTY = "C19"
 LEVEL = "exploration"
 ENGINE = "E7 differential"
 ANCHORS = ["asphalt.core._context:inject", "asphalt.core._context:resource"]
-SPELLINGS = ["T", "Optional[T]", "Union[T, None]", "T | None", "None | T", "Union[None, T]"]
-STATES = ["static", "sync_factory", "async_factory", "awaitable_factory", "inherited_static", "inherited_factory", "missing"]
+SPELLINGS = ["T", "Optional[T]", "Union[T, None]", "T | None", "None | T", "Union[None, T]",
+             # typing constructs that *contain* a string forward reference (the annotation itself is not a string)
+             "Optional['T']", "Union['T', None]"]
+STATES = ["static", "sync_factory", "async_factory", "awaitable_factory", "inherited_static", "inherited_factory", "missing",
+          "factory_raises_notfound"]
 RULE = (
     "random signatures: 0-3 ordinary positional parameters (with/without defaults), optional *args, 0-2 keyword-only ordinary parameters, "
     "optional **kw, 1-4 injected parameters (positional-or-keyword or keyword-only; names from {default, a, b}; annotation spelling one of "
@@ -50,6 +53,9 @@ DECIDING = {
     "awaitable_factory_in_async_function": "factory returning a non-coroutine awaitable, injected into a coroutine function",
     "called_in_spawned_task": "calls from spawned tasks",
     "called_in_nested_context": "calls from nested contexts",
+    "concurrent_call_pairs": "the same injected function called concurrently from two tasks in two different contexts",
+    "factory_raised_notfound": "a factory that itself raises ResourceNotFound (must propagate even for an optional parameter)",
+    "inner_forward_refs": "typing constructs containing a string forward reference",
     "local_classes": "function-local classes referenced by annotations",
     "decoration_rejections": "invalid markers that must be rejected at decoration time",
     "decorated_in_context_still_open_at_call": "decorated inside a context that is still open (but not current) at call time",
@@ -183,7 +189,7 @@ async def scenario(case: dict[str, Any], out: dict[str, Any]) -> None:
         deco_ctx.add_resource(RA(), "default")
         deco_ctx.add_resource(RB(), "a")
         deco_ctx.add_resource(RC(), "b")
-        exec(compile(src, "<generated>", "exec"), ns)
+        exec(compile(src, "<generated>", "exec", dont_inherit=True), ns)  # (do not inherit this module's `from __future__ import annotations`)
     except Exception as e:
         bad("inject-decoration-failed", f"decorating a valid signature raised {describe_exc(e)}")
         await deco_cm.__aexit__(None, None, None)
@@ -217,6 +223,15 @@ async def scenario(case: dict[str, Any], out: dict[str, Any]) -> None:
                     return Produced(key, factory_calls[key])
 
                 where.add_resource_factory(sf, name, types=[T])
+            elif state == "factory_raises_notfound":
+                # a factory whose own (nested) dependency is missing: the ResourceNotFound it raises is not "nothing matches"
+                def failing(key: Any = key, T: Any = T) -> Any:
+                    from asphalt.core import ResourceNotFound
+
+                    factory_calls[key] = factory_calls.get(key, 0) + 1
+                    raise ResourceNotFound(T, "inner_dependency_of_the_factory")
+
+                where.add_resource_factory(failing, name, types=[T])
             elif state == "awaitable_factory":
                 # a plain callable returning a non-coroutine awaitable: the async API awaits it, the sync API hands it out as is
                 class Fut:
@@ -287,6 +302,8 @@ async def scenario(case: dict[str, Any], out: dict[str, Any]) -> None:
                 bad("inject-body-ran", "the function body ran although a required resource could not be resolved")
             if type(exp_exc).__name__ == "ResourceNotFound":
                 inc("missing_raises_before_body")
+                if any(i["state"] == "factory_raises_notfound" for i in sig["inj"]):
+                    inc("factory_raised_notfound")
             if type(exp_exc).__name__ == "AsyncResourceError":
                 inc("async_factory_in_sync_function")
             return
@@ -325,6 +342,8 @@ async def scenario(case: dict[str, Any], out: dict[str, Any]) -> None:
                 inc("string_annotations")
             if "|" in i["spelling"]:
                 inc("pep604_annotations")
+            if "'" in i["spelling"]:
+                inc("inner_forward_refs")
         # ordinary arguments pass through unchanged
         for p, v in zip([p for p in sig["pos"]], pos_args):
             inc("ordinary_args_checked")
@@ -351,7 +370,24 @@ async def scenario(case: dict[str, Any], out: dict[str, Any]) -> None:
     async def run_calls_inner() -> None:
       async with Context(None) as root:
           root.add_resource(RC(), "unrelated")
-          if site == "root":
+          if site == "concurrent":
+              inc("concurrent_call_pairs")
+              setup(root, True)
+              started = anyio.Event()
+
+              async def in_own_context(first: bool) -> None:
+                  async with Context() as own:
+                      setup(own, False)
+                      if not first:
+                          await started.wait()
+                      else:
+                          started.set()
+                      await call_and_compare(own)
+
+              async with create_task_group() as tg2:
+                  tg2.start_soon(in_own_context, True)
+                  tg2.start_soon(in_own_context, False)
+          elif site == "root":
               setup(root, False)
               # 'inherited' states make no sense in a root context: they are placed nowhere -> behave as missing
               await call_and_compare(root)
@@ -403,7 +439,7 @@ def rejection_matrix(out: dict[str, Any]) -> None:
 
             with warnings.catch_warnings():
                 warnings.simplefilter("ignore")
-                exec(compile(src, f"<reject-{name}>", "exec"), dict(ns))
+                exec(compile(src, f"<reject-{name}>", "exec", dont_inherit=True), dict(ns))
         except TypeError:
             continue
         except Exception as e:
@@ -419,7 +455,7 @@ def plan(tier: str) -> dict[str, Any]:
 
 def gen_case(idx: int, seed: int, tier: str) -> Any:
     rng = case_rng(PROPERTY, seed, idx)
-    return {"sig": gen_signature(rng), "site": rng.choice(["root", "nested", "nested", "task"]), "explicit_first": rng.random() < 0.5,
+    return {"sig": gen_signature(rng), "site": rng.choice(["root", "nested", "nested", "task", "concurrent"]), "explicit_first": rng.random() < 0.5,
             "pass_defaults": rng.random() < 0.5, "pass_kwonly": rng.random() < 0.5, "backend": rng.choice(["asyncio", "trio"]),
             "rejections": idx % 50 == 0, "decorate_in": rng.choice(["closed", "closed", "open"])}
 
